@@ -40,7 +40,7 @@ func newFuncVerifier(prog *Prog, sp *FuncSpec) *FuncVerifier {
 	u.strTheory = sp.Strings
 	return &FuncVerifier{prog: prog, spec: sp, u: u, initHeaps: map[string]Term{}, counters: map[string]int{},
 		name: shortName(sp.Key), pureDefs: map[string]*pureDef{}, closures: map[types.Object]*closure{},
-		bound: map[types.Object]Term{}, pureUsed: map[string]bool{}, inlined: map[string]bool{}, trustedUsed: map[string]bool{}, contractUsed: map[string]bool{}}
+		bound: map[types.Object]Term{}, heapSorts: map[string]*Sort{}, pureUsed: map[string]bool{}, inlined: map[string]bool{}, trustedUsed: map[string]bool{}, contractUsed: map[string]bool{}}
 }
 
 func keys(m map[string]bool) []string {
